@@ -256,6 +256,7 @@ var heavy = map[string]bool{"s2-grid": true, "s2-covering": true, "s2-points": t
 var untameDen = 60
 
 type Gen struct {
+	strict bool // systematic cases: no wrong sorts, no dropped / extra / swapped arguments
 	tame   int
 	R      *hx.Rand
 	W      *worldInfo
@@ -631,6 +632,18 @@ func (g *Gen) leaf(s *srt) *Node {
 		}
 		return Route(origin, steps)
 	case sCollection:
+		if r.Chance(1, 4) { // first items of one kind, later items of another (values, keys or both)
+			g.note("het-collection")
+			k := func() string { return hetKinds[r.Intn(len(hetKinds))] }
+			switch r.Intn(3) {
+			case 0:
+				return g.hetCollection("int", "int", k(), k())
+			case 1:
+				return g.hetCollection(k(), k(), "int", "int")
+			default:
+				return g.hetCollection(k(), k(), k(), k())
+			}
+		}
 		return g.collLit(s)
 	case sPair:
 		g.use("pair")
@@ -789,6 +802,9 @@ func (g *Gen) lambda(n int, ps []*srt, res *srt, env []binding, depth int) *Node
 
 func (g *Gen) callable(s *srt, env []binding, depth int, elem *srt) *Node {
 	r := g.R
+	if g.strict {
+		return g.strictCallable(s.arity)
+	}
 	n := s.arity
 	if n < 0 {
 		n = 1
@@ -888,7 +904,8 @@ func (g *Gen) call(f *fn, env []binding, depth int) *Node {
 		}
 		args = append(args, a)
 	}
-	if len(args) > 0 && r.Chance(1, 30) {
+	if g.strict {
+	} else if len(args) > 0 && r.Chance(1, 30) {
 		g.note("dropped-arg")
 		args = args[:len(args)-1]
 	} else if r.Chance(1, 50) {
@@ -922,7 +939,7 @@ func (g *Gen) producers(s *srt) []*fn {
 func (g *Gen) expr(s *srt, env []binding, depth int) *Node {
 	r := g.R
 	g.Budget--
-	if r.Chance(1, 30) { // a wrong sort on purpose
+	if !g.strict && r.Chance(1, 30) { // a wrong sort on purpose
 		g.note("wrong-sort")
 		s = &srt{k: sortKind(r.Intn(int(nSorts))), arity: -1, key: &srt{k: sAny}, val: &srt{k: sAny}}
 	}
